@@ -29,6 +29,21 @@ def prepare(c, hcodec, tl2gen, sc):
     return True
 
 
+def setup(c):
+    """Build everything the tie needs (model driver, in-repo harness, tl2gen, generated code per schema) concurrently.
+    Returns (model argv, [prepared schemas])."""
+    from concurrent.futures import ThreadPoolExecutor
+    with ThreadPoolExecutor(4) as ex:
+        fm = ex.submit(c.model_exe)
+        fh = ex.submit(c.harness, "hcodec")
+        ft = ex.submit(cc.build_tl2gen, c)
+        hcodec, tl2gen = fh.result(), ft.result()
+        scs = corpus(c)
+        oks = list(ex.map(lambda sc: prepare(c, hcodec, tl2gen, sc), scs))
+        model = fm.result()
+    return model, [sc for sc, ok in zip(scs, oks) if ok]
+
+
 # floats: classes of bit patterns. The random stream keeps to the guard of `json_roundtrip_partial`
 # (no -0.0, NaN only with the payload Go's "NaN" parses to); the excluded patterns are exercised by the fixed
 # witness lines (known findings L2/L3) and by dedicated lines for the positions where they are harmless.
@@ -52,16 +67,46 @@ UTF8_SAMPLES = [b"", b"a", b"abc", b"hello world", "é".encode(), "日本".encod
 BAD_UTF8 = [b"\xff", b"\xc0\x80", b"\xed\xa0\x80", b"a\x80", b"\xf4\x90\x80\x80", b"\xe2\x82", b"\xc3", b"ok\xfe\xff", b"\xf0\x80\x80\x80"]
 
 
+PLAIN_KEYS = [b"", b"a", b"key", b"hello world", "é".encode(), "日本".encode(), "\U0001F600".encode(), b"<&>", b"\x7f", b"a/b", b"1", b"-5", b"true",
+              "\u0080\u07ff\u0800\uffff".encode()]
+
+
+def key_plain(k):
+    """guard of findings F1/F2 on one dictionary key"""
+    try:
+        t = k.decode("utf-8")
+    except UnicodeDecodeError:
+        return False
+    return not any(ord(ch) < 0x20 or ch in '"\\\u2028\u2029' for ch in t)
+
+
 class GenJ(cc.Gen1):
     """Gen1 with JSON-relevant primitive distributions (float classes, UTF-8 / non-UTF-8 strings)."""
 
     def __init__(self, sc, rng, maxdepth=4, big=False, guard=True):
         super().__init__(sc, rng, maxdepth, big)
         self.guard = guard
+        # guard of the known findings F1/F2: keys of string-keyed dictionaries are valid UTF-8 that JSON writes without escapes
+        self.dict_elems = {i["elem"]["ty"] for i in self.I if i["kind"] == "dict"}
+        self._key = False
+
+    def struct_body(self, s, params, depth):
+        if self.guard and s["idx"] in self.dict_elems:
+            self._key = True
+        try:
+            return super().struct_body(s, params, depth)
+        finally:
+            self._key = False
 
     def string(self):
         r = self.rng
         k = r.below(10)
+        if self._key:
+            self._key = False
+            s = r.choice(PLAIN_KEYS) if r.chance(1, 3) else bytes(r.range(97, 122) for _ in range(r.choice(cc.STR_LENS)))
+            hdr = bytes([len(s)])
+            bb = hdr + s
+            return bb + bytes(-len(bb) % 4)
         if k < 3:
             s = r.choice(UTF8_SAMPLES)
         elif k < 5:
@@ -277,9 +322,15 @@ class Rewriter:
     def omitted(self, s, f):
         return f["name"].startswith("_") or (f["name"] == "" and s["originTL2"])
 
-    def empty_json(self, ty):
+    def empty_json(self, ty, na=None):
+        """the JSON the writer omits for this type (None: the type is always written); for a dynamic tuple only size 0 is empty"""
         i = self.I[ty]
         k = i["kind"]
+        if k == "array" and i.get("dynamicSize") and na and na[0] != 0:
+            return None
+        if k == "struct" and (i.get("isTypedef") or i.get("isUnwrap")) and na is not None:
+            f0 = i["fields"][0]
+            return self.empty_json(f0["ty"], [self.natarg(a, {}, na) for a in f0["natArgs"]])
         if k == "prim":
             p = i["prim"]
             if p == "string":
@@ -402,7 +453,7 @@ class Rewriter:
         return out
 
     def lift(self, rs, rebuild):
-        return [(r, e, rebuild(t)) for r, e, t in rs]
+        return [(r, ("eq", rebuild(e[1])) if isinstance(e, tuple) else e, rebuild(t)) for r, e, t in rs]
 
     def walk_struct(self, s, params, j, depth):
         out = []
@@ -477,7 +528,7 @@ class Rewriter:
                         out.append(("true_field_dropped_external_bit_set", "same", without(n)))
                 continue
             if n is None:
-                ej = self.empty_json(f["ty"])
+                ej = self.empty_json(f["ty"], na)
                 if not f.get("mask"):
                     if self.is_true_type(f["ty"]):
                         out.append(("unmasked_true_type_explicit", "same", added(key, ("o", []))))
@@ -715,7 +766,9 @@ def build_c06_cases(c, sc, rw, res, rng, cap):
         canon = rj_line(sc, inst, 0, tree)
         rs = rw.walk(inst["idx"], [], tree)
         if len(rs) > cap:
+            # keep the rules seen least often so far in this run
             rng.shuffle(rs)
+            rs.sort(key=lambda r: c.dist.get("rule:" + r[0], 0))
             rs = rs[:cap]
         checks = []
         lines = {canon}
@@ -734,7 +787,7 @@ def build_c06_cases(c, sc, rw, res, rng, cap):
             checks.append((rule, expect, ln, other))
             lines.add(ln)
             c.count("rule:" + rule)
-        cases.append({"xj": l, "canon": canon, "checks": checks, "lines": lines})
+        cases.append({"xj": l, "tl2": bool(sc.tl2), "canon": canon, "checks": checks, "lines": lines})
     return cases
 
 
@@ -756,5 +809,9 @@ def oracle_c06(c, cases, ans):
                     c.oracle_fail(ln, "invalid form '%s' is accepted (%s)" % (rule, a[:80]), ln)
             elif expect == "eq":
                 o = ans.get(other, "?")
+                # TL2-enabled types: an explicit mask bit also sets the hidden TL2 presence of every field sharing the bit
+                # (qt_struct.qtpl "BLOCK: set TL2 masks from TL1 masks"), so only the TL1 value is compared there
+                if cs["tl2"]:
+                    a, o = a.split(" j=")[0], o.split(" j=")[0]
                 if not a.startswith("ok ") or a != o:
                     c.oracle_fail(ln, "form '%s' and its explicit-mask spelling decode differently (%s vs %s)" % (rule, a[:80], o[:80]), ln)
